@@ -17,87 +17,93 @@ def GCtx.inTry (G : GCtx) (A : Act) (l : Nat) (stk : List SVal) : GCtx :=
 
 /-- **The `try` body completes**: `Set_Try`, the body (under the handler), `Pop_Try`, `Jump`. -/
 theorem Runs.tryOk {G : GCtx} {A : Act} (hA : A.OK G) {ip nB ipAfter l : Nat} {stk : List SVal}
-    {mem mem1 : List (Int × Val)} {w w1 : World} {sp1 sp2 sp3 : Span}
+    {mem mem1 : Mem} {w w1 : World} {sp1 sp2 sp3 : Span}
     (i0 : A.c[ip]? = some (.setTry A.fn l, sp1))
-    (hbody : Runs G.code G.lim (G.inTry A l stk).s A.fn A.rest A.mp (ip + 1) stk mem w (ip + 1 + nB) stk mem1 w1)
+    (hbody : Runs G.fr G.code G.lim (G.inTry A l stk).s A.fn A.rest A.mp (ip + 1) stk mem w (ip + 1 + nB) stk mem1 w1)
     (i1 : A.c[ip + 1 + nB]? = some (.popTry, sp2)) (i2 : A.c[ip + 1 + nB + 1]? = some (.jump ipAfter, sp3)) :
-    Runs G.code G.lim G.s A.fn A.rest A.mp ip stk mem w ipAfter stk mem1 w1 := by
+    Runs G.fr G.code G.lim G.s A.fn A.rest A.mp ip stk mem w ipAfter stk mem1 w1 := by
   intro k
   obtain ⟨k1, e1⟩ := hbody (k + 1)
   refine ⟨1 + (k1 + (1 + 1)), ?_⟩
-  rw [execHN_add, execHN_one, exec1H_of_next (mkS_setTry G.code G.lim G.s A.fn ip A.rest A.mp k stk mem w A.c hA.code
+  rw [execHN_add, execHN_one, exec1H_of_next (mkSI_setTry G.code G.lim G.s A.fn ip A.rest A.mp k stk mem w A.c hA.code
     A.fn l sp1 i0)]
   simp only []
   rw [execHN_add]
-  have e1' : execHN G.code G.lim k1 (mkS (withH G.s (⟨⟨A.fn, l⟩, A.rest.length + 1, stk.length, A.mp⟩ :: G.s.handlers))
+  have e1' : execHN G.code G.lim k1 (mkSI (withH G.s (⟨⟨A.fn, l⟩, A.rest.length + 1, stk.length, A.mp⟩ :: G.s.handlers))
       (⟨A.fn, ip + 1⟩ :: A.rest) A.mp (k + 1) stk mem w) =
-      .next (mkS (withH G.s (⟨⟨A.fn, l⟩, A.rest.length + 1, stk.length, A.mp⟩ :: G.s.handlers))
+      .next (mkSI (withH G.s (⟨⟨A.fn, l⟩, A.rest.length + 1, stk.length, A.mp⟩ :: G.s.handlers))
         (⟨A.fn, ip + 1 + nB⟩ :: A.rest) A.mp (k + 1 + k1) stk mem1 w1) := e1
   rw [e1']
   simp only []
-  rw [execHN_add, execHN_one, exec1H_of_next (mkS_popTry G.code G.lim G.s A.fn (ip + 1 + nB) A.rest A.mp (k + 1 + k1) stk mem1
+  rw [execHN_add, execHN_one, exec1H_of_next (mkSI_popTry G.code G.lim G.s A.fn (ip + 1 + nB) A.rest A.mp (k + 1 + k1) stk mem1
     w1 A.c hA.code sp2 _ G.s.handlers i1)]
   simp only []
   rw [withH_self, execHN_one]
-  have hj := reach_jump G.code G.lim (baseOf G.s A.fn A.rest A.mp w1) (ip + 1 + nB + 1) (k + 1 + k1 + 1) stk mem1
-    ⟨A.fn, 0⟩ A.rest A.c rfl hA.code ipAfter sp3 i2
-  rw [← mkS_eq_reach, ← mkS_eq_reach] at hj
-  rw [exec1H_of_next hj]
+  have hj := reach_jump G.code G.lim (baseOf (withIt G.s mem1.it) A.fn A.rest A.mp w1) (ip + 1 + nB + 1) (k + 1 + k1 + 1) stk
+    mem1.cells ⟨A.fn, 0⟩ A.rest A.c rfl hA.code ipAfter sp3 i2
+  have hj' : exec1 G.code G.lim (mkSI G.s (⟨A.fn, ip + 1 + nB + 1⟩ :: A.rest) A.mp (k + 1 + k1 + 1) stk mem1 w1) =
+      .next (mkSI G.s (⟨A.fn, ipAfter⟩ :: A.rest) A.mp (k + 1 + k1 + 1 + 1) stk mem1 w1) := hj
+  rw [exec1H_of_next hj']
   simp only [Nat.add_assoc]
 
 /-- A fatal error inside the `try` body. -/
 theorem RunsF.tryBody {G : GCtx} {A : Act} (hA : A.OK G) {ip l : Nat} {stk : List SVal}
-    {mem : List (Int × Val)} {w w1 : World} {sp1 : Span} {kd msg : String} {fsp : Span}
+    {mem : Mem} {w w1 : World} {sp1 : Span} {kd msg : String} {fsp : Span}
     (i0 : A.c[ip]? = some (.setTry A.fn l, sp1))
     (hbody : RunsF G.code G.lim (G.inTry A l stk).s A.fn A.rest A.mp (ip + 1) stk mem w kd msg fsp w1) :
     RunsF G.code G.lim G.s A.fn A.rest A.mp ip stk mem w kd msg fsp w1 := by
   intro k
   obtain ⟨k1, s', e1, h1, h2⟩ := hbody (k + 1)
   refine ⟨1 + k1, s', ?_, h1, h2⟩
-  rw [execHN_add, execHN_one, exec1H_of_next (mkS_setTry G.code G.lim G.s A.fn ip A.rest A.mp k stk mem w A.c hA.code
+  rw [execHN_add, execHN_one, exec1H_of_next (mkSI_setTry G.code G.lim G.s A.fn ip A.rest A.mp k stk mem w A.c hA.code
     A.fn l sp1 i0)]
   exact e1
 
 /-- **The `try` body throws**: the dispatch brings the VM to the handler's label with the error
 object pushed; `Set_Var` binds it, `Pop_Try` removes the handler. -/
 theorem Runs.tryCatch {G : GCtx} {A : Act} (hA : A.OK G) {ip l slot : Nat} {stk : List SVal}
-    {mem mem1 : List (Int × Val)} {w w1 : World} {sp1 sp2 sp3 : Span} {msg : String} {tsp : Span}
+    {mem mem1 : Mem} {w w1 : World} {sp1 sp2 sp3 : Span} {msg : String} {tsp : Span}
     (i0 : A.c[ip]? = some (.setTry A.fn l, sp1))
     (hbody : RunsT (G.inTry A l stk) A.fn A.rest A.mp (ip + 1) stk mem w msg tsp mem1 w1)
     (i1 : A.c[l]? = some (.setVar slot, sp2)) (i2 : A.c[l + 1]? = some (.popTry, sp3))
     (h0 : 0 ≤ A.mp - (slot : Int)) (h1 : A.mp - (slot : Int) < (G.lim.memory : Int)) :
-    Runs G.code G.lim G.s A.fn A.rest A.mp ip stk mem w (l + 2) stk
-      (memSetL mem1 (A.mp - (slot : Int)) (.ref w1.heap.size)) ⟨w1.heap.push (errCell msg tsp), w1.out⟩ := by
+    Runs G.fr G.code G.lim G.s A.fn A.rest A.mp ip stk mem w (l + 2) stk
+      (mem1.set (A.mp - (slot : Int)) (.ref w1.heap.size)) ⟨w1.heap.push (errCell msg tsp), w1.out⟩ := by
   intro k
   obtain ⟨k1, s1, frames', ip', mp', xs, e1, e2⟩ := hbody (k + 1)
   refine ⟨1 + (k1 + (1 + (1 + 1))), ?_⟩
-  rw [execHN_add, execHN_one, exec1H_of_next (mkS_setTry G.code G.lim G.s A.fn ip A.rest A.mp k stk mem w A.c hA.code
+  rw [execHN_add, execHN_one, exec1H_of_next (mkSI_setTry G.code G.lim G.s A.fn ip A.rest A.mp k stk mem w A.c hA.code
     A.fn l sp1 i0)]
   simp only []
   rw [execHN_add]
-  have e1' : execHN G.code G.lim k1 (mkS (withH G.s (⟨⟨A.fn, l⟩, A.rest.length + 1, stk.length, A.mp⟩ :: G.s.handlers))
+  have e1' : execHN G.code G.lim k1 (mkSI (withH G.s (⟨⟨A.fn, l⟩, A.rest.length + 1, stk.length, A.mp⟩ :: G.s.handlers))
       (⟨A.fn, ip + 1⟩ :: A.rest) A.mp (k + 1) stk mem w) = .next s1 := e1
   rw [e1']
   simp only []
   have e2' : exec1 G.code G.lim s1 = .intr (.throw msg tsp)
-      (mkS (G.inTry A l stk).s (frames' ++ ⟨A.fn, ip'⟩ :: A.rest) mp' (k + 1 + k1 + 1) (xs ++ stk) mem1 w1) := e2
+      (mkSI (G.inTry A l stk).s (frames' ++ ⟨A.fn, ip'⟩ :: A.rest) mp' (k + 1 + k1 + 1) (xs ++ stk) mem1 w1) := e2
   rw [execHN_add, execHN_one, exec1H_of_throw e2']
-  have hd := dispatch_mkS G.s A.fn l A.mp G.s.handlers frames' ⟨A.fn, ip'⟩ A.rest mp' (k + 1 + k1 + 1) xs stk mem1 w1 msg tsp
-  have hd' : dispatch msg tsp (mkS (G.inTry A l stk).s (frames' ++ ⟨A.fn, ip'⟩ :: A.rest) mp' (k + 1 + k1 + 1)
+  have hd := dispatch_mkSI G.s A.fn l A.mp G.s.handlers frames' ⟨A.fn, ip'⟩ A.rest mp' (k + 1 + k1 + 1) xs stk mem1 w1 msg tsp
+  have hd' : dispatch msg tsp (mkSI (G.inTry A l stk).s (frames' ++ ⟨A.fn, ip'⟩ :: A.rest) mp' (k + 1 + k1 + 1)
       (xs ++ stk) mem1 w1) = _ := hd
   rw [hd']
   simp only []
   rw [execHN_add, execHN_one]
-  have hs := reach_setVar G.code G.lim (baseOf (withH G.s (⟨⟨A.fn, l⟩, A.rest.length + 1, stk.length, A.mp⟩ :: G.s.handlers))
-    A.fn A.rest A.mp ⟨w1.heap.push (errCell msg tsp), w1.out⟩) l (k + 1 + k1 + 1) stk mem1 ⟨A.fn, 0⟩ A.rest A.c rfl hA.code
-    slot sp2 (.ref w1.heap.size) none i1 h0 h1
-  rw [← mkS_eq_reach, ← mkS_eq_reach] at hs
-  rw [exec1H_of_next hs]
+  have hs := reach_setVar G.code G.lim
+    (baseOf (withIt (withH G.s (⟨⟨A.fn, l⟩, A.rest.length + 1, stk.length, A.mp⟩ :: G.s.handlers)) mem1.it)
+    A.fn A.rest A.mp ⟨w1.heap.push (errCell msg tsp), w1.out⟩) l (k + 1 + k1 + 1) stk mem1.cells ⟨A.fn, 0⟩ A.rest A.c rfl
+    hA.code slot sp2 (.ref w1.heap.size) none i1 h0 h1
+  have hs' : exec1 G.code G.lim (mkSI (withH G.s (⟨⟨A.fn, l⟩, A.rest.length + 1, stk.length, A.mp⟩ :: G.s.handlers))
+      (⟨A.fn, l⟩ :: A.rest) A.mp (k + 1 + k1 + 1) (⟨.ref w1.heap.size, none⟩ :: stk) mem1
+      ⟨w1.heap.push (errCell msg tsp), w1.out⟩) =
+      .next (mkSI (withH G.s (⟨⟨A.fn, l⟩, A.rest.length + 1, stk.length, A.mp⟩ :: G.s.handlers))
+        (⟨A.fn, l + 1⟩ :: A.rest) A.mp (k + 1 + k1 + 1 + 1) stk (mem1.set (A.mp - (slot : Int)) (.ref w1.heap.size))
+        ⟨w1.heap.push (errCell msg tsp), w1.out⟩) := hs
+  rw [exec1H_of_next hs']
   simp only []
-  rw [execHN_one, exec1H_of_next (mkS_popTry G.code G.lim G.s A.fn (l + 1) A.rest A.mp (k + 1 + k1 + 1 + 1) stk _
+  rw [execHN_one, exec1H_of_next (mkSI_popTry G.code G.lim G.s A.fn (l + 1) A.rest A.mp (k + 1 + k1 + 1 + 1) stk _
     ⟨w1.heap.push (errCell msg tsp), w1.out⟩ A.c hA.code sp3 _ G.s.handlers i2)]
   rw [withH_self]
   simp only [Nat.add_assoc]
-  rfl
 
 end HmsProofs.Sim
